@@ -300,7 +300,7 @@ def rule_r4(ctx) -> List[R.Inst]:
         else:
             insts.append(R.undec("C02.R4", "tempo-list", file, bp[0].lineno, "source of the tempo list not recognised"))
     # initial offset = the field the #OFFSET branch assigns
-    rm = M.fn(S.SMSET + "._read_maps")
+    rm = M.nfn(S.SMSET + "._read_maps")
     rt, _ = S.header_reader_table(ctx)
     off_field = rt.get("#OFFSET", (None, None))[1]
     passed = None
@@ -392,8 +392,8 @@ def rule_r5(ctx) -> List[R.Inst]:
         insts.append(R.viol("C02.R5", "token-partition", file, fn.node.lineno,
                             "tokens of the file are not partitioned exhaustively into charts and metadata",
                             construct=f"SMMapSet.read partition: charts {sorted(map(str, A))} / headers {sorted(map(str, B))}"))
-    rm = M.fn(S.SMSET + "._read_maps")
-    comps = [n for n in ast.walk(rm.node) if isinstance(n, ast.ListComp)]
+    rm = M.nfn(S.SMSET + "._read_maps")
+    comps = [n for n in ast.walk(rm.node) if isinstance(n, (ast.ListComp, ast.GeneratorExp))]
     good = False
     if len(comps) == 1:
         g = comps[0].generators[0]
@@ -401,8 +401,8 @@ def rule_r5(ctx) -> List[R.Inst]:
         good = not g.ifs and isinstance(g.iter, ast.Name) and g.iter.id == ps[0] and "read" in unparse(comps[0].elt) and \
             any(C.self_attr(t) == "maps" for n in ast.walk(rm.node) if isinstance(n, ast.Assign) for t in n.targets)
     insts.append(R.ok("C02.R5", "every-chart", file, rm.node.lineno, idiom="self.maps = [SMMap.read(...) for every chart token]") if good else
-                 R.viol("C02.R5", "every-chart", file, rm.node.lineno,
-                        "not every chart token of the file becomes a chart of the mapset", construct="SMMapSet._read_maps"))
+                 (R.viol if len(comps) == 1 else R.undec)("C02.R5", "every-chart", file, rm.node.lineno,
+                        "not every chart token of the file becomes a chart of the mapset", **({"construct": "SMMapSet._read_maps"} if len(comps) == 1 else {})))
     return insts
 
 
@@ -615,6 +615,10 @@ def rule_r9(ctx) -> List[R.Inst]:
         a0, a1, a2 = so[0].args
         if unparse(a0) == "measure" and sym.canon(a1).same(sym.parse(f"{bvar} + snap")) and unparse(a2) == "METRONOME":
             insts.append(R.ok(rid, "snap-args", file, so[0].lineno, idiom="Snap(measure, beat + fraction, METRONOME)"))
+        elif unparse(a0) == "measure" and unparse(a2) == "METRONOME" and isinstance(a1, ast.BinOp) and isinstance(a1.op, ast.Add) and \
+                bvar in (unparse(a1.left), unparse(a1.right)):
+            insts.append(R.undec(rid, "snap-args", file, so[0].lineno,
+                                 f"the position is (measure, {bvar} + <fraction written in place>): the fraction '{unparse(a1)[:60]}' is not followed"))
         else:
             insts.append(R.viol(rid, "snap-args", file, so[0].lineno, "an object's position is (measure, beat + fraction) in 4/4",
                                 construct=unparse(so[0])))
